@@ -20,7 +20,7 @@ def rand_cfg(rng, codec=None, audio=None, fast=None, meta=None, dims=None):
     w, h = dims or rng.choice([(640, 480), (1920, 1080), (16, 16), (65535, 65535), (1, 1), (320, 240)])
     return dict(codec=codec, audio=audio, fast=fast, meta=meta, w=w, h=h,
                 rate=rng.choice(AAC_RATES + [12345, 0, 192000]) if audio not in ("opus",) else rng.choice([48000, 44100]),
-                ch=rng.choice([1, 2, 2, 2, 3, 6, 8, 2, 1, 0, 255, 65535]))
+                ch=rng.choice([1, 2, 2, 2, 3, 6, 8, 2, 1, 0, 255, 65535, 256, 257, 258, 4098, 32768, 15, 16]))
 
 
 def emit_cfg(c, cfg, rng):
@@ -142,6 +142,20 @@ def fam_big_samples(rng, n, prefix):
     """samples around typical buffer sizes (4 KiB, 8 KiB, 64 KiB) mixed with small ones, audio and video, both
     layouts: offsets must still resolve to each sample's own bytes (write batching / coalescing)"""
     out = []
+    # Opus packets are passed through at any length: 65535 / 65536 / 70000 / 131077 bytes, then more samples
+    for j, size in enumerate([65535, 65536, 65537, 70000, 131077, 65536]):
+        c = Case("%sopus%d" % (prefix, j), "mux")
+        c.b("video", "h264", "280", "1e0")
+        c.b("audio", "opus", "bb80", "2")
+        c.b("fast", j % 2)
+        c.o("wv", fb(0.0), hx(video_key(rng, "h264")), 1)
+        c.o("wa", fb(0.0), hx(bytes([0x08]) + rng.bytes(5)))
+        c.o("wa", fb(0.02), hx(bytes([0x08]) + bytes([rng.range(1, 255)]) * (size - 1)))
+        c.o("wv", fb(0.04), hx(video_delta(rng, "h264")), 0)
+        c.o("wa", fb(0.04), hx(bytes([0x08]) + rng.bytes(7)))
+        c.o("wv", fb(0.08), hx(video_delta(rng, "h264")), 0)
+        c.o("fin", 0)
+        out.append(c)
     for i in range(n):
         codec = rng.choice(["h264", "h265"])
         c = Case("%s%d" % (prefix, i), "mux")
@@ -538,6 +552,35 @@ def fam_frag(rng, n, prefix):
             else:
                 c.o("fi")
         c.o("ff")
+        c.o("fi")
+        out.append(c)
+    return out
+
+
+def fam_frag_numeric(rng, n, prefix):
+    """decode times at the numeric edges of the fragmented muxer: jumps of 2^63 ticks and more between
+    fragments (forward = accepted, backward = rejected), two samples of one fragment on either side of a
+    multiple of 2^32, timescales 2..999 with spans near u64::MAX under the duration queries"""
+    out = []
+    U = 2**64 - 1
+    for i in range(n):
+        c = Case("%s%d" % (prefix, i), "frag")
+        k = i % 6
+        ts = [90000, 600, 2, 999, 1000, 48000, 1, 2**32 - 1][i % 8] if k >= 4 else 90000
+        c.raw("fc 280 1e0 %x %x 6742001e 68ce ~ ~ ~" % (ts, rng.choice([2000, 0, 1, 2**32 - 1])))
+        def w(d, key=0):
+            c.o("fw", "%x" % d, "%x" % d, hx(rng.bytes(rng.range(1, 4))), key)
+        if k == 0:      # forward jump of 2^63 and more, each side in its own fragment
+            a = rng.choice([0, 1, 5]); w(a, 1); c.o("ff"); w(a + 2**63 + rng.choice([0, 1]), 1); c.o("ff"); w(U, 1); c.o("ff")
+        elif k == 1:    # backward jump of more than 2^63: must be rejected
+            w(2**63 + 5, 1); c.o("ff"); w(1, 1); c.o("ff"); w(2**63 + 6, 1); c.o("ff")
+        elif k == 2:    # two samples of one fragment around a multiple of 2^32
+            m = rng.choice([2**32, 2**33, 2**32 * 3]); w(m - 1500, 1); w(m + 1500); w(m + 4500); c.o("ff")
+        elif k == 3:    # exactly on the boundary, and equal decode times there
+            m = 2**32; w(m - 3000, 1); w(m); w(m); w(m + 3000); c.o("ff")
+        else:           # duration queries with extreme spans
+            w(0, 1); c.o("fd"); c.o("fr"); w(rng.choice([U, U - 1, 2**63, 10**15, 600 * 10**6])); c.o("fd"); c.o("fr")
+            w(U); c.o("fd"); c.o("fr")
         c.o("fi")
         out.append(c)
     return out
@@ -953,7 +996,7 @@ def fam_encode_paths(rng, n, prefix):
                 "%x" % rng.choice([33, 40]))
         for k in range(rng.range(2, 9)):
             r = rng.below(12)
-            ms = "%x" % rng.choice([33, 33, 40, 1, 0, 1000, 17])
+            ms = "%x" % rng.choice([33, 33, 40, 1, 0, 1000, 17, 16777217, 20000001, 33554433, 16777216])
             if r < 5:
                 key = (not started) if rng.chance(5, 6) else started
                 data = video_key(rng, codec) if key else video_delta(rng, codec)
@@ -1291,6 +1334,33 @@ def fam_cts_bounds(rng, n, prefix):
 
 
 # ---------- timestamps at the top of the tick range (C12/C06/C04/C16) ----------
+def fam_signed_zero(rng, n, prefix):
+    """-0.0 is a finite, non-negative time: every entry point must treat it like +0.0"""
+    out = []
+    NZ = "8000000000000000"
+    for i in range(n):
+        cfg = rand_cfg(rng, audio=rng.choice(["none-cfg", "aac-lc", "opus"]), dims=(640, 480), meta=0)
+        cfg["rate"], cfg["ch"] = 48000, 2
+        codec = cfg["codec"]
+        c = Case("%s%d" % (prefix, i), "mux")
+        emit_cfg(c, cfg, rng)
+        k = i % 4
+        if k == 0:
+            c.o("wvd", rng.choice([NZ, fb(0.0), fb(1 / 30.0)]), NZ, hx(video_key(rng, codec)), 1)
+        elif k == 1:
+            c.o("wv", NZ, hx(video_key(rng, codec)), 1)
+        elif k == 2:
+            c.o("wvd", NZ, fb(0.0), hx(video_key(rng, codec)), 1)
+        else:
+            c.o("wvd", fb(0.0), fb(0.0), hx(video_key(rng, codec)), 1)
+        if has_audio(cfg):
+            c.o("wa", rng.choice([NZ, fb(0.0)]), hx(audio_frame(rng, cfg["audio"])))
+        c.o("wvd", fb(2 / 30.0), fb(1 / 30.0), hx(video_delta(rng, codec)), 0)
+        c.o("fin", 0)
+        out.append(c)
+    return out
+
+
 def fam_extreme_ts(rng, n, prefix):
     top = 2**64 / 90000.0
     vals = [204963823041217.0, 204963823041218.0, 204963823041216.0, 204963823041200.0, top, top * 1.0000001, top * 0.9999999,
